@@ -229,8 +229,10 @@ func c12Histories(r *mc.Run) {
 			ops = append(ops, c12op{fmt.Sprintf("verify(%s,%s)", quotes[qi].name, lvlName[l]), 0, qi, l})
 		}
 	}
-	ops = append(ops, c12op{"Now=nil", 1, 0, 0}, c12op{"Now=explicit(T0)", 2, 0, 0}, c12op{"clock+25d", 3, 0, 0})
+	ops = append(ops, c12op{"Now=nil", 1, 0, 0}, c12op{"Now=explicit(T0)", 2, 0, 0}, c12op{"clock+25d", 3, 0, 0},
+		c12op{"TrustedRoots={look-alike}", 4, 0, 0}, c12op{"TrustedRoots={T}", 5, 0, 0})
 	roots := wa.Roots
+	foreignRoots := world.Pool(world.CachedPKI("F").Root)
 	depth := 3
 	if r.Thorough() {
 		depth = 4
@@ -251,6 +253,7 @@ func c12Histories(r *mc.Run) {
 			vsched.Reset()
 			shared := fresh(false, false, initNil)
 			nowNil := initNil
+			curRoots := roots
 			for step, oi := range hist {
 				op := ops[oi]
 				last := step == len(hist)-1
@@ -264,6 +267,12 @@ func c12Histories(r *mc.Run) {
 					nowNil = false
 				case 3:
 					vsched.Advance(25 * 24 * time.Hour)
+				case 4:
+					curRoots = foreignRoots
+					shared.TrustedRoots = curRoots
+				case 5:
+					curRoots = roots
+					shared.TrustedRoots = curRoots
 				case 0:
 					shared.GetCollateral, shared.CheckRevocations = op.lvl >= 1, op.lvl >= 2
 					shared.Getter = getter.Clone()
@@ -276,7 +285,9 @@ func c12Histories(r *mc.Run) {
 					if !r.Want(id) {
 						continue
 					}
-					ferr := world.SafeVerify(q, fresh(op.lvl >= 1, op.lvl >= 2, nowNil))
+					fo0 := fresh(op.lvl >= 1, op.lvl >= 2, nowNil)
+					fo0.TrustedRoots = curRoots
+					ferr := world.SafeVerify(q, fo0)
 					out := verdict(err)
 					if world.IsPanic(err) {
 						r.Violate("history:panic:"+crashSite(err), id, "verification through a re-used options value crashes: "+errStr(err), map[string]any{"history": c12HistNames(ops, hist)})
@@ -291,6 +302,7 @@ func c12Histories(r *mc.Run) {
 						var e1, e2 error
 						func() { defer world.Recover(&e1); tl, _, e1 = verify.SupportedTcbLevelsFromCollateral(q, shared) }()
 						fo := fresh(op.lvl >= 1, op.lvl >= 2, nowNil)
+						fo.TrustedRoots = curRoots
 						world.SafeVerify(q, fo)
 						func() { defer world.Recover(&e2); fl, _, e2 = verify.SupportedTcbLevelsFromCollateral(q, fo) }()
 						if (e1 == nil) != (e2 == nil) || !reflect.DeepEqual(tl, fl) {
